@@ -6,7 +6,8 @@ EXTENDS Naturals, Sequences, FiniteSets, TLC, SequencesExt
 
 CONSTANTS Timeout,      \* reply time-out of the communicator (tenths)
           Period,       \* receive period of the connection (tenths): granularity of the time-out
-          PollInt       \* reconnect interval (tenths)
+          PollInt,      \* reconnect interval (tenths)
+          Resume        \* after a reconnect every polled module is polled again within this time (tenths)
 
 VARIABLES open,       \* caller -> [kind, gids, delays, t] of the call in progress (set of records with field i)
           seen,       \* sequence of gids in the order the device received them
@@ -20,13 +21,16 @@ VARIABLES open,       \* caller -> [kind, gids, delays, t] of the call in progre
           ncb,        \* number of registered reconnect callbacks (from the cfg event)
           hsent,      \* [g, t]: commands the host has put on the line, and when
           txns,       \* [gids, delays] of every transaction ever started
+          nsens,      \* number of modules polled through the communicator by its own poll thread (callers 1 .. nsens)
+          resume,     \* sensors that still owe a poll after the last reconnect
+          resumeDl,   \* ... and until when
           void,       \* the run left the environment assumption (stale data arrived while a command was in flight)
           devs
-cvars == <<open, seen, rtime, lastAtt, connected, closedAt, cbs, recon, hadLoss, ncb, hsent, txns, void, devs>>
+cvars == <<open, seen, rtime, lastAtt, connected, closedAt, cbs, recon, hadLoss, ncb, hsent, txns, void, devs, nsens, resume, resumeDl>>
 
 CInit == /\ open = {} /\ seen = <<>> /\ rtime = {} /\ lastAtt = 0 - 1 /\ connected = FALSE /\ closedAt = 0
          /\ cbs = <<>> /\ recon = FALSE /\ devs = {} /\ hadLoss = FALSE /\ ncb = 0 /\ hsent = {} /\ void = FALSE
-         /\ txns = {}
+         /\ txns = {} /\ nsens = 0 /\ resume = {} /\ resumeDl = 0
 
 TimeOf(g) == LET r == {x \in rtime : x.g = g} IN IF r = {} THEN 0 ELSE (CHOOSE x \in r : TRUE).t
 Pos(g) == LET r == {n \in 1 .. Len(seen) : seen[n] = g} IN IF r = {} THEN 0 ELSE CHOOSE n \in r : TRUE
@@ -37,7 +41,9 @@ Call(i, kind, gids, delays, t, faulty, exp) ==
    /\ ~\E x \in open : x.i = i
    /\ open' = open \cup {[i |-> i, kind |-> kind, gids |-> gids, delays |-> delays, t |-> t, faulty |-> faulty, exp |-> exp]}
    /\ txns' = txns \cup {[gids |-> gids, delays |-> delays]}
-   /\ UNCHANGED <<seen, rtime, lastAtt, connected, closedAt, cbs, recon, devs, hadLoss, ncb, hsent, void>>
+   /\ (resume = {} \/ t <= resumeDl)                             \* PollResumes: nobody is overdue
+   /\ resume' = resume \ {i}
+   /\ UNCHANGED <<seen, rtime, lastAtt, connected, closedAt, cbs, recon, devs, hadLoss, ncb, hsent, void, nsens, resumeDl>>
 
 (* Atomic: inside a transaction the device receives nothing else between two consecutive commands; *)
 (* each delay of a multicomm lies between the two commands around it                                *)
@@ -47,19 +53,19 @@ DelayedAt(g, t) == \A q \in txns : \A k \in 2 .. Len(q.gids) :
                       q.gids[k] = g => t >= TimeOf(q.gids[k - 1]) + q.delays[k - 1]
 DevRecvBase(g, t) == /\ AtomicAt(g)
                      /\ seen' = Append(seen, g) /\ rtime' = rtime \cup {[g |-> g, t |-> t]}
-                     /\ UNCHANGED <<open, lastAtt, connected, closedAt, cbs, recon, hadLoss, ncb, hsent, txns, void>>
+                     /\ UNCHANGED <<open, lastAtt, connected, closedAt, cbs, recon, hadLoss, ncb, hsent, txns, void, nsens, resume, resumeDl>>
 DevRecv(g, t) == DevRecvBase(g, t) /\ DelayedAt(g, t) /\ UNCHANGED devs
 Dev_DelayNotHonoured(g, t) == DevRecvBase(g, t) /\ ~DelayedAt(g, t) /\ devs' = devs \cup {"DelayNotHonoured"}
 DevClose(t) == /\ closedAt' = t /\ hadLoss' = TRUE
-               /\ UNCHANGED <<open, seen, rtime, lastAtt, connected, cbs, recon, devs, ncb, hsent, txns, void>>
-Cfg(n) == ncb' = n /\ UNCHANGED <<open, seen, rtime, lastAtt, connected, closedAt, cbs, recon, devs, hadLoss, hsent, txns, void>>
-HostSend(g, t) == hsent' = hsent \cup {[g |-> g, t |-> t]} /\ UNCHANGED <<open, seen, rtime, lastAtt, connected, closedAt, cbs, recon, devs, hadLoss, ncb, txns, void>>
+               /\ UNCHANGED <<open, seen, rtime, lastAtt, connected, cbs, recon, devs, ncb, hsent, txns, void, nsens, resume, resumeDl>>
+Cfg(n, ns) == ncb' = n /\ nsens' = ns /\ UNCHANGED <<open, seen, rtime, lastAtt, connected, closedAt, cbs, recon, devs, hadLoss, hsent, txns, void, resume, resumeDl>>
+HostSend(g, t) == hsent' = hsent \cup {[g |-> g, t |-> t]} /\ UNCHANGED <<open, seen, rtime, lastAtt, connected, closedAt, cbs, recon, devs, hadLoss, ncb, txns, void, nsens, resume, resumeDl>>
 (* late or unsolicited bytes: the property speaks about data that arrived before a command was sent *)
 InFlight == \E c \in open : \E k \in 1 .. Len(c.gids) : \E h \in hsent : h.g = c.gids[k]
 Unsolicited == void' = (void \/ InFlight)
-               /\ UNCHANGED <<open, seen, rtime, lastAtt, connected, closedAt, cbs, recon, devs, hadLoss, ncb, hsent, txns>>
+               /\ UNCHANGED <<open, seen, rtime, lastAtt, connected, closedAt, cbs, recon, devs, hadLoss, ncb, hsent, txns, nsens, resume, resumeDl>>
 State(b) == /\ connected' = b
-            /\ UNCHANGED <<open, seen, rtime, lastAtt, closedAt, cbs, recon, devs, hadLoss, ncb, hsent, txns, void>>
+            /\ UNCHANGED <<open, seen, rtime, lastAtt, closedAt, cbs, recon, devs, hadLoss, ncb, hsent, txns, void, nsens, resume, resumeDl>>
 
 Sel(g, e) == LET F[n \in 0 .. Len(g)] == IF n = 0 THEN <<>> ELSE IF e[n] THEN Append(F[n - 1], g[n]) ELSE F[n - 1]
              IN F[Len(g)]
@@ -72,7 +78,7 @@ RetOkBase(i, got) ==
    /\ \A k \in 1 .. Len(c.gids) : c.exp[k] => Pos(c.gids[k]) > 0 \* every answered command reached the device
    /\ \A k \in 1 .. Len(c.gids) : \E h \in hsent : h.g = c.gids[k]   \* every command was put on the line
    /\ open' = {x \in open : x.i # i}
-   /\ UNCHANGED <<seen, rtime, lastAtt, connected, closedAt, cbs, recon, hadLoss, ncb, hsent, txns, void>>
+   /\ UNCHANGED <<seen, rtime, lastAtt, connected, closedAt, cbs, recon, hadLoss, ncb, hsent, txns, void, nsens, resume, resumeDl>>
 (* the delay after the last command of a transaction has passed when the call returns *)
 LastDelayOK(i, t) == LET c == OpenOf(i) IN t >= SentAt(c.gids[Len(c.gids)]) + c.delays[Len(c.gids)]
 RetOk(i, got, t) == RetOkBase(i, got) /\ LastDelayOK(i, t) /\ UNCHANGED devs
@@ -90,7 +96,7 @@ RetFail(i, exc, t) ==
       ELSE t <= LastSent(c) + Timeout + Period                          \* FailsInTime, counted from the last send
    /\ (closedAt > 0 /\ t >= closedAt) => ~connected              \* StateVisible once the loss was hit
    /\ open' = {x \in open : x.i # i}
-   /\ UNCHANGED <<seen, rtime, lastAtt, connected, closedAt, cbs, recon, devs, hadLoss, ncb, hsent, txns, void>>
+   /\ UNCHANGED <<seen, rtime, lastAtt, connected, closedAt, cbs, recon, devs, hadLoss, ncb, hsent, txns, void, nsens, resume, resumeDl>>
 
 (* connection attempts *)
 AttemptBase(ok, t) ==
@@ -100,24 +106,30 @@ AttemptBase(ok, t) ==
    /\ hadLoss' = (IF ok THEN FALSE ELSE TRUE)
    /\ cbs' = (IF ok THEN <<>> ELSE cbs)
    /\ (recon => Len(cbs) = ncb)                                  \* previous reconnect ran all its callbacks
-   /\ UNCHANGED <<open, seen, rtime, connected, ncb, hsent, txns, void>>
+   /\ resume' = (IF ok /\ hadLoss THEN 1 .. nsens ELSE IF ok THEN resume ELSE {})   \* polling resumes right after a reconnect
+   /\ resumeDl' = (IF ok /\ hadLoss THEN t + Resume ELSE resumeDl)
+   /\ UNCHANGED <<open, seen, rtime, connected, ncb, hsent, txns, void, nsens>>
 Attempt(ok, t) == (lastAtt < 0 \/ t >= lastAtt + PollInt) /\ AttemptBase(ok, t) /\ UNCHANGED devs
 Dev_NoRateLimit(ok, t) == lastAtt >= 0 /\ t < lastAtt + PollInt /\ AttemptBase(ok, t)
                           /\ devs' = devs \cup {"NoRateLimit"}
 (* the identification exchange after a successful transport connect failed: the attempt counts as failed *)
 IdentFail == /\ recon' = FALSE /\ hadLoss' = TRUE /\ cbs' = <<>>
              /\ closedAt' = 0 - 1                                 \* a device that is not the expected one counts as not connected
-             /\ UNCHANGED <<open, seen, rtime, lastAtt, connected, devs, ncb, hsent, txns, void>>
+             /\ resume' = {}
+             /\ UNCHANGED <<open, seen, rtime, lastAtt, connected, devs, ncb, hsent, txns, void, nsens, resumeDl>>
 (* the user switched the connection off (is_connected := FALSE): the next successful attempt is a reconnect *)
 UserDisc == /\ hadLoss' = TRUE
-            /\ UNCHANGED <<open, seen, rtime, lastAtt, connected, closedAt, cbs, recon, devs, ncb, hsent, txns, void>>
+            /\ UNCHANGED <<open, seen, rtime, lastAtt, connected, closedAt, cbs, recon, devs, ncb, hsent, txns, void, nsens, resume, resumeDl>>
 Callback(name) == /\ recon /\ ~\E n \in 1 .. Len(cbs) : cbs[n] = name     \* at most once per reconnect
                   /\ cbs' = Append(cbs, name)
-                  /\ UNCHANGED <<open, seen, rtime, lastAtt, connected, closedAt, recon, devs, hadLoss, ncb, hsent, txns, void>>
+                  /\ UNCHANGED <<open, seen, rtime, lastAtt, connected, closedAt, recon, devs, hadLoss, ncb, hsent, txns, void, nsens, resume, resumeDl>>
 
-EndOK(conn, unfinished) == /\ unfinished = <<>>
+EndOK(conn, unfinished, mustheal) ==
+                           /\ unfinished = <<>>
+                           /\ (mustheal => conn)                 \* self-healing: the device has been reachable again for long enough
+                           /\ resume = {}                        \* (the observation ends well after the last reconnect)
                            /\ (recon => Len(cbs) = ncb)
                            /\ UNCHANGED cvars
 Dev_NeverReturns(unfinished) == /\ unfinished # <<>> /\ devs' = devs \cup {"NoTimeoutOnTrickle"}
-                                /\ UNCHANGED <<open, seen, rtime, lastAtt, connected, closedAt, cbs, recon, hadLoss, ncb, hsent, txns, void>>
+                                /\ UNCHANGED <<open, seen, rtime, lastAtt, connected, closedAt, cbs, recon, hadLoss, ncb, hsent, txns, void, nsens, resume, resumeDl>>
 =============================================================================
